@@ -118,3 +118,63 @@ def diff_snap(a, b, path=""):
             if d:
                 return d
     return "%s: %r -> %r" % (path, str(a)[:160], str(b)[:160])
+
+
+# ---------------------------------------------------------------------------
+# source-free failpoints (C17: "... returns (or raises)") ----------------------
+
+class InjectedFault(RuntimeError):
+    """Raised by a failpoint at the entry of a repository function."""
+
+
+class Failpoints:
+    """sys.monitoring(PY_START) on repository code only: count the function entries of a call, or make the
+    k-th entry raise InjectedFault (a callee failing part-way through the operation)."""
+    TOOL = 4
+
+    def __init__(self):
+        self.mon = getattr(sys, "monitoring", None)
+        self.prefix = os.path.join(repo_root(), "wavespectra") + os.sep
+
+    def _run(self, fn, k):
+        mon = self.mon
+        state = {"n": 0, "where": None}
+        prefix = self.prefix
+
+        def on_start(code, offset):
+            if not code.co_filename.startswith(prefix):
+                return mon.DISABLE
+            state["n"] += 1
+            if k is not None and state["n"] == k:
+                state["where"] = code.co_filename[len(prefix):] + ":" + code.co_name
+                raise InjectedFault("failpoint at entry %d (%s)" % (k, state["where"]))
+
+        try:
+            mon.use_tool_id(self.TOOL, "vf-failpoints")
+        except ValueError:
+            return None, None, None
+        err = None
+        try:
+            mon.register_callback(self.TOOL, mon.events.PY_START, on_start)
+            mon.set_events(self.TOOL, mon.events.PY_START)
+            try:
+                r = fn()
+                if hasattr(r, "compute"):
+                    r.compute()
+            except BaseException as e:      # noqa: the injected fault may come back wrapped
+                err = e
+        finally:
+            mon.set_events(self.TOOL, 0)
+            mon.register_callback(self.TOOL, mon.events.PY_START, None)
+            mon.free_tool_id(self.TOOL)
+            mon.restart_events()
+        return state["n"], state["where"], err
+
+    def count(self, fn):
+        if self.mon is None:
+            return None
+        n, _, err = self._run(fn, None)
+        return n
+
+    def inject(self, fn, k):
+        return self._run(fn, k)
